@@ -1,12 +1,11 @@
 import Jrpc.Frames
 import Jrpc.Generated.Facts
 /-
-  Obligations over the regenerated facts: the control-frame handlers have the guarded shape that
-  `Jrpc.Frames` transcribes (length guard before every index, id normalised before the map lookup),
-  and the executor skips undecodable buffers and invalid ids instead of stopping.
+  Obligations over the regenerated facts: the statement skeletons (normalised control flow; log lines,
+  comments and formatting removed) of the functions that `Jrpc.Frames` transcribes are the ones the model was
+  written against.  A change to any of them breaks this file; the check then searches for a failing input.
 -/
 namespace Jrpc.Facts
-open Jrpc
 
 /-- `cancelCtx`: Unmarshal error ↦ return; `len(params) < 1` ↦ return; id normalised before `c.handling[id]`. -/
 theorem skel_cancelCtx_shape :
@@ -89,7 +88,7 @@ theorem skel_frameExecutor_shape :
   "        continue",
   "      c.handleFrame(ctx, frame)"] := rfl
 
-/-- `handleResponse`: unknown id ↦ return; deliver to `req.ready`; delete from `inflight`. -/
+/-- `handleResponse`: unknown id ↦ return; channel results register the sink first; deliver to `req.ready`; remove the entry only if it is still this request's. -/
 theorem skel_handleResponse_shape :
     Generated.skel_handleResponse = [
   "c.inflightLk.Lock()",
@@ -108,7 +107,8 @@ theorem skel_handleResponse_shape :
   "  go c.handleCtxAsync(chanCtx, frame.ID)",
   "req.ready <- clientResponse{ Jsonrpc: frame.Jsonrpc, Result: frame.Result, ID: frame.ID, Error: frame.Error, }",
   "c.inflightLk.Lock()",
-  "delete(c.inflight, frame.ID)",
+  "if cur, ok := c.inflight[frame.ID]; ok && cur.ready == req.ready",
+  "  delete(c.inflight, frame.ID)",
   "c.inflightLk.Unlock()"] := rfl
 
 end Jrpc.Facts
